@@ -14,7 +14,7 @@ import LitexModel.Fhdl.Syntax
   call sim <fuel> ; sigs ; comb groups ; sync domains ; verilog items ; verilog decls ; ios ; inputs ; observed ; cycle ; cycle ...
      (formats in the code below)  Runs stepF on the serialised lowered fragment and stepV on the items parsed from
      the real text, in lock step.
-     -> "<printeq> <decleq> <nsites> ; <mism> <fits> <F values of observed…> [! nonfit site indices] ; ..."
+     -> "<printeq> <decleq> <nsites> ! <indices of the sites that do not fit statically> ; <mism> <fits> <F values of observed…> [! nonfit site indices] ; ..."
         per cycle, after the inputs are applied and both sides have settled: mism = 0 if the Verilog state equals
         the bits of the FHDL state, else 1 + id of the first differing signal (the Verilog side is then
         resynchronised); fits = every statement of the module satisfies its side condition in this state.
@@ -183,6 +183,37 @@ partial def sitesItems (ρ : Env) : Items → Nat → List Nat × Nat
     (a ++ b, n2)
 end
 
+mutual
+partial def ssitesS : Stmt → Nat → List Nat × Nat
+  | .assign l r, n => (if sfitsAssign l r then [] else [n], n + 1)
+  | .ite c t f, n =>
+    let (a, n1) := ssitesSs t (n + 1)
+    let (b, n2) := ssitesSs f n1
+    ((if sfitsCond c then [] else [n]) ++ a ++ b, n2)
+  | .case test items _ d, n =>
+    let (a, n1) := ssitesItems items (n + 1)
+    let (b, n2) := ssitesSs d n1
+    ((if sfitsCase test items then [] else [n]) ++ a ++ b, n2)
+partial def ssitesSs : Stmts → Nat → List Nat × Nat
+  | .nil, n => ([], n)
+  | .cons s ss, n =>
+    let (a, n1) := ssitesS s n
+    let (b, n2) := ssitesSs ss n1
+    (a ++ b, n2)
+partial def ssitesItems : Items → Nat → List Nat × Nat
+  | .nil, n => ([], n)
+  | .cons _ _ _ body rest, n =>
+    let (a, n1) := ssitesSs body n
+    let (b, n2) := ssitesItems rest n1
+    (a ++ b, n2)
+end
+
+def ssitesModule (f : FModule) : List Nat × Nat :=
+  let (l1, n1) := f.comb.foldl (fun (acc : List Nat × Nat) g =>
+    let (a, n) := ssitesSs g.stmts acc.2; (acc.1 ++ a, n)) ([], 0)
+  f.sync.foldl (fun (acc : List Nat × Nat) d =>
+    let (a, n) := ssitesSs d.stmts acc.2; (acc.1 ++ a, n)) (l1, n1)
+
 def sitesModule (f : FModule) (ρ : Env) : List Nat × Nat :=
   let (l1, n1) := f.comb.foldl (fun (acc : List Nat × Nat) g =>
     let (a, n) := sitesSs ρ g.stmts acc.2; (acc.1 ++ a, n)) ([], 0)
@@ -220,7 +251,8 @@ def callSim (secs : List (List String)) : Option String := do
       | none => "ok"
       | some p => "diff:" ++ p
     let deq := checkDecls f ios decls
-    let nsites := (sitesModule f (fun _ => 0)).2
+    let (ssites, nsites) := ssitesModule f
+    let ssitesStr := " ".intercalate (ssites.map toString)
     -- initial states
     let aF0 := initF f
     let aV0 : Array Int := decls.foldl (fun acc d =>
@@ -252,7 +284,7 @@ def callSim (secs : List (List String)) : Option String := do
           go aF' aV' rest (line :: acc)
         | [] => none
     let lines ← go aF0 aV0 cycles []
-    some (" ; ".intercalate (s!"{peq} {deq} {nsites}" :: lines))
+    some (" ; ".intercalate (s!"{peq} {deq} {nsites} ! {ssitesStr}" :: lines))
   | _ => none
 
 def call (args : List String) : Option String :=
